@@ -222,7 +222,7 @@ func (c *Ctx) Class(kind string, n int64) {
 func (c *Ctx) Sample(x interface{}) {
 	c.mu.Lock()
 	if len(c.res.Samples) < maxSamples {
-		c.res.Samples = append(c.res.Samples, x)
+		c.res.Samples = append(c.res.Samples, SafeJSON(x))
 	}
 	c.mu.Unlock()
 }
@@ -255,7 +255,7 @@ func (c *Ctx) Violation(sig string, detail interface{}) {
 	c.res.NViolations++
 	c.sigCount[sig]++
 	if c.sigCount[sig] <= maxViolationsKept {
-		c.res.Violations = append(c.res.Violations, Violation{Sig: sig, Case: c.curCase, Detail: detail})
+		c.res.Violations = append(c.res.Violations, Violation{Sig: sig, Case: c.curCase, Detail: SafeJSON(detail)})
 	}
 	if c.Verbose {
 		b, _ := json.MarshalIndent(detail, "", " ")
